@@ -36,10 +36,8 @@ def cmat(rows):
     return clist([clist([cq(F(v)) for v in r]) for r in rows])
 
 
-def coq_oq(J):
-    if isinstance(J, float) and np.isinf(J):
-        return "None"
-    return "(Some %s)" % cq(F(J))
+def is_inf(J):
+    return isinstance(J, (float, np.floating)) and np.isinf(J)
 
 
 def is_dyadic(x, maxbits=20):
@@ -166,11 +164,9 @@ def kmeans_section(ck):
             W0 = wcss(Xl, lab, c0l)
             if W > W0:
                 ck.fail("kmeans/worse-than-initial", "returned inertia %s > initial labelling's %s" % (W, W0), r2)
-            if not (isinstance(J, float) and np.isinf(J)) and F(J) < W:
-                ck.fail("kmeans/returned-J-below-inertia", "returned J %s < inertia %s of the returned solution" % (J, W), r2)
-            if isinstance(J, float) and np.isinf(J):
+            if is_inf(J):
                 ninf += 1
-                # structural condition of the known finding: the very first iteration already meets the stopping rule
+                # structural condition of the (fixed) finding: the very first iteration already meets the stopping rule
                 c1 = runs[0][1]
                 moved = sum((a - b) ** 2 for ra, rb in zip(c0l, c1) for a, b in zip(ra, rb))
                 if moved < thr_exact:
@@ -180,8 +176,15 @@ def kmeans_section(ck):
                     ck.fail("kmeans/returned-J-inf/first-iteration-not-converged",
                             "_kmeans returns J=inf although its first iteration does not meet the stopping rule: X=%s k=%d Labels=%s maxiter=%d"
                             % (Xl, k, lab, mi), r2)
+            elif F(J) != W:
+                ck.fail("kmeans/returned-J/not-inertia-of-returned-solution",
+                        "_kmeans returns J=%s but the returned centres/labels have inertia %s: X=%s k=%d Labels=%s maxiter=%d"
+                        % (J, W, Xl, k, lab, mi), r2)
+            if is_inf(J):
+                add("false", ("kmeans", r2, None))       # the model never returns inf
+                continue
             add("kmeans_agrees %s %s %s %s %s %s %s %s %s %s" % (st, cnat(p), cnat(k), cmat(Xl), cnatl(lab), cnat(mi),
-                                                           cq(delta), cmat(Cl), cnatl(zl), coq_oq(J)),
+                                                           cq(delta), cmat(Cl), cnatl(zl), cq(F(J))),
                 ("kmeans", r2, None))
         if runs is None:
             continue
@@ -207,8 +210,11 @@ def kmeans_section(ck):
                     r3 = dict(rep, maxiter=mm, nbclusters=kk, centres=[[str(v) for v in r] for r in C2l], labels=z2l, J=str(J2))
                     if C2l != expected_centres(Xl, z2l, k) or any(not (0 <= v < k) for v in z2l):
                         ck.fail("kmeans-wrapper/centres-not-member-means", "kmeans(): centres %s labels %s" % (C2l, z2l), r3)
-                    add("kmeans_api_agrees %s %s %s %s %s %s %s %s %s %s" % (
-                        st, cnat(p), cz(kk), cmat(Xl), cnatl(lab), cz(mm), cq(F(dd)), cmat(C2l), cnatl(z2l), coq_oq(float(J2))),
+                    if is_inf(float(J2)) or F(float(J2)) != wcss(Xl, z2l, C2l):
+                        ck.fail("kmeans-wrapper/returned-J-not-inertia", "kmeans(): J=%s, inertia of the returned solution %s"
+                                % (J2, wcss(Xl, z2l, C2l)), r3)
+                    add("false" if is_inf(float(J2)) else "kmeans_api_agrees %s %s %s %s %s %s %s %s %s %s" % (
+                        st, cnat(p), cz(kk), cmat(Xl), cnatl(lab), cz(mm), cq(F(dd)), cmat(C2l), cnatl(z2l), cq(F(float(J2)))),
                         ("kmeans-wrapper", r3, None))
     # ---- _EStep / voronoi with arbitrary rational centres (not means), ties included
     rng = ck.rng("estep")
@@ -580,10 +586,31 @@ def cut_oracles(ck, tag, t, n, E, parents, height, leaves, rep, terms_add, exact
         check_clusters("partition", u, r2)
 
 
+class _NpProxy(object):
+    """Stands in for the name `np` inside hierarchical_clustering while `ward` runs: forwards everything to
+    numpy and records what np.argsort returned (its order among equal keys is unspecified - the SIMD sorts of
+    current NumPy are not stable - and decides which duplicate edge `_remap` keeps).  Observation only."""
+
+    def __init__(self, real):
+        object.__setattr__(self, "_real", real)
+        object.__setattr__(self, "log", [])
+
+    def __getattr__(self, name):
+        return getattr(self._real, name)
+
+    def argsort(self, a, *args, **kw):
+        r = self._real.argsort(a, *args, **kw)
+        self.log.append([int(v) for v in r])
+        return r
+
+
 def hierarchical_section(ck):
     import warnings
     from nipy.algorithms.clustering import hierarchical_clustering as hc
     from nipy.algorithms.graph.graph import WeightedGraph
+    ck.trust.append("np.argsort tie order inside _remap is an oracle: the permutations the running code obtained are recorded "
+                    "(name `np` of hierarchical_clustering proxied while ward runs) and passed to the model, which validates "
+                    "each as a sorting permutation of the keys")
     terms, meta = [], []
 
     def add(term, m):
@@ -591,12 +618,6 @@ def hierarchical_section(ck):
         meta.append(m)
     cases = graph_cases(ck)
     n_exact = 0
-    try:
-        int(np.flatnonzero(np.array([0, 1, 0]) == 1))
-        int1 = True
-    except TypeError:
-        int1 = False
-    i1 = cbool(int1)
     n_raise = 0
     for ci, (name, n, E, feat0) in enumerate(cases):
         comp = components(n, E)
@@ -623,32 +644,34 @@ def hierarchical_section(ck):
         ck.count(("ward", n, tuple(E), tuple(map(tuple, featl))), nontrivial=len(E) > 0, bucket=bucket)
         with warnings.catch_warnings():
             warnings.simplefilter("ignore")
+            proxy = _NpProxy(np)
+            hc.np = proxy
             try:
                 t = hc.ward(mk(), np.array(featl, dtype=float))
             except Exception as e:  # noqa
+                hc.np = np
                 n_raise += 1
                 if isinstance(e, TypeError) and "0-dimensional" in str(e):
                     ck.fail("ward/raises/int-of-1-element-array", "ward raised %s: %s (edges %s, features %s)" % (type(e).__name__, e, Ed, featl), rep)
                 else:
                     ck.fail("ward/raises/%s" % type(e).__name__, "ward raised %s: %s" % (type(e).__name__, e), rep)
-                if exact and not int1 and n <= 16:
-                    Gd = clist(["(%s,%s)" % (cnat(a), cnat(b)) for a, b in Ed])
-                    add("match ward true %s %s %s %s with Some (p, h) => ward_check %s %s %s %s p h | None => false end" % (
-                        cnat(p), cnat(n), Gd, cmat(featl), cnat(p), cnat(n), Gd, cmat(featl)), ("ward-model-with-int-fix-certificate", rep))
                 if exact:
-                    add("ward_raises %s %s %s %s %s" % (i1, cnat(p), cnat(n), clist(["(%s,%s)" % (cnat(a), cnat(b)) for a, b in Ed]), cmat(featl)), ("ward", rep))
+                    add("ward_raises %s %s %s %s %s" % (cnat(p), cnat(n), clist(["(%s,%s)" % (cnat(a), cnat(b)) for a, b in Ed]), cmat(featl),
+                                                       clist([cnatl(x) for x in proxy.log])), ("ward", rep))
                 continue
+        hc.np = np
+        orc = clist([cnatl(x) for x in proxy.log])
         parents = [int(v) for v in t.parents]
         height = [float(v) for v in t.height]
-        rep = dict(rep, parents=parents, height=height)
+        rep = dict(rep, parents=parents, height=height, argsort_results=proxy.log)
         if ci < 3 or name == "tied-costs" and n == 6:
             ck.sample({"call": "ward(G, features)", "n": n, "edges": [list(e) for e in Ed], "features": featl,
                        "parents": parents, "height": height})
         leaves = dendrogram_oracle(ck, "ward", n, E, featl, parents, height, exact, True, True, rep)
         if exact:
             n_exact += 1
-            add("ward_agrees %s %s %s %s %s %s %s" % (i1, cnat(p), cnat(n), clist(["(%s,%s)" % (cnat(a), cnat(b)) for a, b in Ed]),
-                                                 cmat(featl), cnatl(parents), "[%s]" % "; ".join(cq(F(h)) for h in height)),
+            add("ward_agrees %s %s %s %s %s %s %s" % (cnat(p), cnat(n), clist(["(%s,%s)" % (cnat(a), cnat(b)) for a, b in Ed]),
+                                                 cmat(featl), orc, cnatl(parents), "[%s]" % "; ".join(cq(F(h)) for h in height)),
                 ("ward", rep))
         Gund = clist(["(%s,%s)" % (cnat(a), cnat(b)) for a, b in E])
         if exact and n <= ck.n(24, 40):
@@ -737,5 +760,4 @@ def hierarchical_section(ck):
                             "dendrogram: %s" % str(rep)[:400], rep)
                 else:
                     ck.fail("%s/model-vs-impl" % kind, "Gallina model and implementation disagree (%s): %s" % (kind, str(rep)[:400]), rep)
-    ck.section("hierarchical", graph_cases=len(cases), exact_ward_cases=n_exact, model_cases=len(terms), ward_raised=n_raise,
-               int_of_1_element_array_allowed=int1)
+    ck.section("hierarchical", graph_cases=len(cases), exact_ward_cases=n_exact, model_cases=len(terms), ward_raised=n_raise)
